@@ -161,24 +161,55 @@ Definition se_and_then (x : sexp) (f : Z -> bool * Z) : bool * Z :=
 Definition se_or_else (x : sexp) (g : Z -> bool * Z) : bool * Z :=
   match x with inl v => (true, v) | inr e => g e end.
 
-(** * optional<T&> (P2988): rebinding reference = nullable pointer to one of the referents *)
-Definition sr_step (s : list Z * (option nat * option nat)) (o : rop) : list Z * (option nat * option nat) :=
-  let '(cs, ab) := s in
+(** * optional<T&> (P2988): rebinding reference = nullable pointer to a referent.  State: the
+   referent cells, the source std::optional<T0> (an option), the three pointers (a, b), z.
+   A step is undefined (None) exactly when the program writes through a reference whose referent's
+   lifetime has ended (the source was reset after the reference was bound to its contained object). *)
+Definition srstate := (list Z * option Z * ((option rtgt * option rtgt) * option rtgt))%type.
+
+Definition sr_set (cs : list Z) (c : nat) (v : Z) : list Z :=
+  firstn c cs ++ match skipn c cs with [] => [] | _ :: r => v :: r end.
+
+Definition sr_step (s : srstate) (o : rop) : option srstate :=
+  let '(cs, sr, (ab, z)) := s in
   match o with
-  | RBind t c => let '(_, y) := spick t ab in (cs, sput t (Some c) y)
-  | RNull t => let '(_, y) := spick t ab in (cs, sput t None y)
-  | RCopy t => let '(_, y) := spick t ab in (cs, sput t y y)
-  | RSwap => (cs, (snd ab, fst ab))
+  | RBind t c => let '(_, y) := spick t ab in Some (cs, sr, (sput t (Some (RCell c)) y, z))
+  | RNull t => let '(_, y) := spick t ab in Some (cs, sr, (sput t None y, z))
+  | RCopy t => let '(_, y) := spick t ab in Some (cs, sr, (sput t y y, z))
+  | RSwap => Some (cs, sr, ((snd ab, fst ab), z))
   | RWrite t v =>
     let '(x, _) := spick t ab in
     match x with
-    | Some c => (firstn c cs ++ match skipn c cs with [] => [] | _ :: r => v :: r end, ab)
-    | None => s
+    | Some (RCell c) => Some (sr_set cs c v, sr, (ab, z))
+    | Some RSrc => match sr with Some _ => Some (cs, Some v, (ab, z)) | None => None end
+    | None => Some s
     end
-  | RSelf _ => s
+  | RSelf _ => Some s
+  | RCellSet c v => Some (sr_set cs c v, sr, (ab, z))
+  (* [optional.ref.ctor]: rhs.has_value() ? binds to *rhs : disengaged *)
+  | RFromOpt t =>
+    let '(_, y) := spick t ab in
+    Some (cs, sr, (sput t (match sr with Some _ => Some RSrc | None => None end) y, z))
+  | RFromRef t => let '(_, y) := spick t ab in Some (cs, sr, (sput t z y, z))
+  | RZBind c => Some (cs, sr, (ab, Some (RCell c)))
+  | RZNull => Some (cs, sr, (ab, None))
+  | RSrcAssign v | RSrcEmplace v => Some (cs, Some v, (ab, z))
+  | RSrcReset => Some (cs, None, (ab, z))
   end.
 
-Definition sr_run s (ops : list rop) := fold_left sr_step ops s.
+Fixpoint sr_run (s : srstate) (ops : list rop) : option srstate :=
+  match ops with
+  | [] => Some s
+  | o :: r => match sr_step s o with Some s' => sr_run s' r | None => None end
+  end.
+
+(* the value seen through a reference: None = disengaged or dangling (no defined value) *)
+Definition sr_deref (cs : list Z) (sr : option Z) (p : option rtgt) : option Z :=
+  match p with
+  | Some (RCell c) => nth_error cs c
+  | Some RSrc => sr
+  | None => None
+  end.
 
 (** * std::unexpected<E> : one value *)
 Definition su_step (E : ty) (s : Z * Z * Z) (o : uop) : Z * Z * Z :=
